@@ -349,6 +349,10 @@ fn val() -> BoxedStrategy<(f64, f64)> {
         4 => (gen::fl(-4.0, 4.0), gen::fl(-4.0, 4.0)),
         1 => Just((0.0, 0.0)),
         1 => (gen::logu(-13.0, -9.0), gen::logu(-13.0, -9.0)),
+        // negligible (or zero) real part with a significant imaginary part and vice versa
+        1 => gen::fl(-4.0, 4.0).prop_map(|v| (0.0, v)),
+        1 => (gen::logu(-13.0, -11.0), gen::fl(-4.0, 4.0)),
+        1 => (gen::fl(-4.0, 4.0), gen::logu(-13.0, -11.0)),
     ]
     .boxed()
 }
